@@ -362,6 +362,11 @@ func genOutcome(r *mon.Rng, fail bool, caps *scriptCaps) outcome {
 	if fail {
 		pCut = 45
 	}
+	if o.Pad >= 1<<20 {
+		// moving 1 MiB through the race detector costs both sides the better part of a second: most big bodies are
+		// announced (Content-Length, or a run of chunks) and then cut early
+		pCut = 65
+	}
 	if o.Frame != fEOF && r.Intn(100) < pCut {
 		o.Cut = cutKind(r.PickInt([]int{int(cShortFIN), int(cShortFIN), int(cShortFIN), int(cShortRST), int(cShortRST), int(cHangBody), int(cSlow)}))
 		if o.Cut == cHangBody {
@@ -375,6 +380,9 @@ func genOutcome(r *mon.Rng, fail bool, caps *scriptCaps) outcome {
 			}
 		}
 		o.Sent = r.PickInt([]int{0, 0, 1, 100, 300, 500, 700, 900, 999})
+		if o.Pad >= 1<<20 {
+			o.Sent = r.PickInt([]int{0, 0, 1, 1, 10, 100})
+		}
 	}
 	return o
 }
@@ -519,8 +527,40 @@ func (s *server) waitPeerGone(conn net.Conn, brw *bufio.ReadWriter) {
 	brw.Reader.Read(b[:])
 }
 
+// A response body is a short head followed by padding taken from a filler that is allocated once: under the race
+// detector building (allocating, copying) a body of 1 MiB per request costs the better part of a second.
+const maxPad = 1<<20 + 70000
+
+var (
+	fillSpace = bytes.Repeat([]byte{' '}, maxPad) // json stays json
+	fillDot   = bytes.Repeat([]byte{'.'}, maxPad)
+)
+
+type vbody struct{ head, fill []byte }
+
+func (v vbody) size() int { return len(v.head) + len(v.fill) }
+
+// write sends the bytes [from, to) of the body.
+func (v vbody) write(w io.Writer, from, to int) error {
+	if from < len(v.head) {
+		e := to
+		if e > len(v.head) {
+			e = len(v.head)
+		}
+		if _, err := w.Write(v.head[from:e]); err != nil {
+			return err
+		}
+		from = e
+	}
+	if to > from {
+		_, err := w.Write(v.fill[from-len(v.head) : to-len(v.head)])
+		return err
+	}
+	return nil
+}
+
 // responseBody renders the body the script entry asks for.
-func responseBody(o outcome, npts int) []byte {
+func responseBody(o outcome, npts int) vbody {
 	var b []byte
 	switch o.Body {
 	case bJSON:
@@ -540,14 +580,14 @@ func responseBody(o outcome, npts int) []byte {
 	if o.Cut != cNone && min < 40 {
 		min = 40 // something to cut
 	}
+	v := vbody{head: b}
 	if len(b) < min {
-		fill := byte(' ') // json stays json
+		v.fill = fillSpace[:min-len(b)]
 		if o.Body == bGarbage || o.Body == bErrPage {
-			fill = '.'
+			v.fill = fillDot[:min-len(b)]
 		}
-		b = append(b, bytes.Repeat([]byte{fill}, min-len(b))...)
 	}
-	return b
+	return v
 }
 
 // respond sends the scripted response. Complete Content-Length / chunked responses go through net/http (the
@@ -555,6 +595,7 @@ func responseBody(o outcome, npts int) []byte {
 // scripted bytes were written without an error (the client may have gone away: its timeout).
 func (s *server) respond(w http.ResponseWriter, o outcome, npts int) bool {
 	body := responseBody(o, npts)
+	size := body.size()
 	if o.Status == 204 {
 		w.WriteHeader(204)
 		return true
@@ -566,15 +607,14 @@ func (s *server) respond(w http.ResponseWriter, o outcome, npts int) bool {
 	if o.Cut == cNone && o.Frame != fEOF {
 		w.Header().Set("Content-Type", ctype)
 		if o.Frame == fLength {
-			w.Header().Set("Content-Length", strconv.Itoa(len(body)))
+			w.Header().Set("Content-Length", strconv.Itoa(size))
 			w.WriteHeader(o.Status)
-			_, err := w.Write(body)
-			return err == nil
+			return body.write(w, 0, size) == nil
 		}
 		w.WriteHeader(o.Status)
-		_, err1 := w.Write(body[:len(body)/2])
+		err1 := body.write(w, 0, size/2)
 		w.(http.Flusher).Flush() // no Content-Length + flush: net/http switches to chunked
-		_, err2 := w.Write(body[len(body)/2:])
+		err2 := body.write(w, size/2, size)
 		return err1 == nil && err2 == nil
 	}
 	conn, brw, ok := s.hijack(w)
@@ -587,45 +627,45 @@ func (s *server) respond(w http.ResponseWriter, o outcome, npts int) bool {
 	fmt.Fprintf(brw, "HTTP/1.1 %d %s\r\nContent-Type: %s\r\n", o.Status, http.StatusText(o.Status), ctype)
 	switch o.Frame {
 	case fLength:
-		fmt.Fprintf(brw, "Content-Length: %d\r\n\r\n", len(body))
+		fmt.Fprintf(brw, "Content-Length: %d\r\n\r\n", size)
 	case fChunked:
 		fmt.Fprint(brw, "Transfer-Encoding: chunked\r\n\r\n")
 	case fEOF:
 		fmt.Fprint(brw, "Connection: close\r\n\r\n")
 	}
 	if o.Cut == cNone { // fEOF: the body ends with the connection
-		brw.Write(body)
+		body.write(brw, 0, size)
 		return brw.Flush() == nil
 	}
-	k := len(body) * o.Sent / 1000
-	if k >= len(body) {
-		k = len(body) - 1
+	k := int(int64(size) * int64(o.Sent) / 1000)
+	if k >= size {
+		k = size - 1
 	}
-	csz := len(body)/3 + 1 // chunk size
-	if csz > 4096 {
-		csz = 4096
+	csz := size/3 + 1 // chunk size
+	if csz > 16384 {
+		csz = 16384
 	}
-	// send writes body[from:to] in the declared framing; open = the last chunk is declared in full but sent in part
+	// send writes the bytes [from, to) in the declared framing; open = the last chunk is declared in full but sent in part
 	send := func(from, to int, open bool) {
 		if o.Frame == fLength {
-			brw.Write(body[from:to])
+			body.write(brw, from, to)
 			return
 		}
 		for from < to {
 			n := csz
-			if from+n > len(body) {
-				n = len(body) - from
+			if from+n > size {
+				n = size - from
 			}
 			if from+n > to {
 				if open {
 					fmt.Fprintf(brw, "%x\r\n", n)
-					brw.Write(body[from:to])
+					body.write(brw, from, to)
 					return
 				}
 				n = to - from
 			}
 			fmt.Fprintf(brw, "%x\r\n", n)
-			brw.Write(body[from : from+n])
+			body.write(brw, from, from+n)
 			fmt.Fprint(brw, "\r\n")
 			from += n
 		}
@@ -643,14 +683,14 @@ func (s *server) respond(w http.ResponseWriter, o outcome, npts int) bool {
 		return err == nil
 	case cSlow:
 		// whole chunks only here; whether the client sees the end before its timeout is up to the machine
-		step := (len(body)-k)/4 + 1
-		for from := 0; from < len(body); {
+		step := (size-k)/4 + 1
+		for from := 0; from < size; {
 			to := k
 			if from >= k {
 				to = from + step
 			}
-			if to > len(body) {
-				to = len(body)
+			if to > size {
+				to = size
 			}
 			if to > from {
 				send(from, to, false)
@@ -659,7 +699,7 @@ func (s *server) respond(w http.ResponseWriter, o outcome, npts int) bool {
 				return false
 			}
 			from = to
-			if from < len(body) {
+			if from < size {
 				select {
 				case <-time.After(time.Duration(s.c.TimeoutMs) * time.Millisecond / 10):
 				case <-s.stop:
